@@ -355,6 +355,24 @@ def run(ctx: Ctx) -> int:
         atoms = guard_atoms(r, stop=tei)
         ok = len(atoms) == 1 and atoms[0][1] and isinstance(atoms[0][0], ast.Name) and "typing_extensions" in atoms[0][0].id
         ctx.oblige("C02.f", ok, r, "typing_extensions' object is used whenever typing_extensions is available" if ok else f"typing_extensions' object is only used under {[ast.unparse(t) for t, _ in atoms]}: with the typing variant as primary the typing_extensions variant of _TypedDictMeta is in no table - a typing_extensions.TypedDict value is accepted without any key or type check", fn=tei)
+    # (1') the shadow capture only ADDS typing's variant of a name when the module's own variable holds
+    #      typing_extensions' variant: a name that the module defines itself and registers for capture must be defined
+    #      through typing_extensions_import of the SAME name (otherwise the typing_extensions variant is in no table:
+    #      a typing_extensions.TypedDict is then validated as a plain dict - C02-3B)
+    thm = ctx.repo.mod("_typehints")
+    mod_assigns = {}
+    for s_ in thm.tree.body:
+        if isinstance(s_, ast.Assign) and len(s_.targets) == 1 and isinstance(s_.targets[0], ast.Name):
+            mod_assigns.setdefault(s_.targets[0].id, []).append(s_)
+    caps = [s_.value for s_ in thm.tree.body if isinstance(s_, ast.Expr) and isinstance(s_.value, ast.Call) and call_leaf(s_.value) == "_capture_typing_extension_shadows" and s_.value.args and isinstance(s_.value.args[0], ast.Constant)]
+    ctx.floor("C02.f-shadow-captures", len(caps), 4)
+    for c in caps:
+        nm = c.args[0].value
+        for d_ in mod_assigns.get(nm, []):
+            v_ = d_.value
+            ok = isinstance(v_, ast.Call) and call_leaf(v_) == "typing_extensions_import" and v_.args and isinstance(v_.args[0], ast.Constant) and v_.args[0].value == nm
+            ctx.oblige("C02.f", ok, None, f"`{nm}` is taken from typing_extensions when available, so the capture can add typing's variant" if ok else f"`{nm} = {ast.unparse(v_)[:50]}` is not typing_extensions' `{nm}`, but _capture_typing_extension_shadows('{nm}', ...) only adds typing's variant next to a typing_extensions primary: the typing_extensions variant is in no table - a typing_extensions.TypedDict is validated as a plain dict (any keys, any value types accepted)", site=f"_typehints:<module> :: {nm} = {ast.unparse(v_)[:60]}", construct=f"{nm} primary variant", function="_typehints:<module>")
+
     # (2) a hint rebuilt after resolving forward references keeps EVERY argument: one append per argument, unconditional
     rfr = ctx.func("_postponed_annotations:resolve_forward_refs")
     from .util import nested_defs as _nd
